@@ -620,7 +620,15 @@ func Extract(a *Term, hi, lo int) *Term {
 				return Xor(x, y)
 			}
 		}
-	case OpAdd, OpSub:
+	case OpAdd:
+		// (zext(x:k) + c) with the low k' >= k bits of c zero: no carry out of the low part
+		if c, ok := a.Args[1].ConstVal(); ok && lo > 0 && c&mask(lo) == 0 {
+			if x := a.Args[0]; x.Op == OpZExt && x.Args[0].W <= lo {
+				return BV(w, c>>uint(lo))
+			}
+		}
+		fallthrough
+	case OpSub:
 		// low bits of a sum depend only on the low bits of the operands
 		if lo == 0 && a.Args[1].IsConst() {
 			x, y := Extract(a.Args[0], hi, 0), Extract(a.Args[1], hi, 0)
@@ -933,9 +941,10 @@ func UF(name string, w int, args ...*Term) *Term {
 // ---------------------------------------------------------------- evaluation under a model
 
 type Model struct {
-	Vars   map[string]uint64            // BV / Bool variables
-	Arrays map[string]map[uint64]uint64 // select arrays (sparse)
-	UFs    map[string]map[string]uint64 // uf name -> args key -> value
+	Vars      map[string]uint64            // BV / Bool variables
+	Arrays    map[string]map[uint64]uint64 // select arrays (sparse)
+	UFs       map[string]map[string]uint64 // uf name -> args key -> value
+	ConstArrs map[string][]byte            // constant arrays known to the solver
 }
 
 func (m *Model) Eval(t *Term) uint64 {
@@ -1071,7 +1080,13 @@ func (m *Model) eval(t *Term, memo map[*Term]uint64) uint64 {
 	case OpBNot:
 		r = b2u(a(0) == 0)
 	case OpSelect:
-		r = m.Arrays[t.Name][a(0)]
+		if d, ok := m.ConstArrs[t.Name]; ok {
+			if i := a(0); i < uint64(len(d)) {
+				r = uint64(d[i])
+			}
+		} else {
+			r = m.Arrays[t.Name][a(0)]
+		}
 	case OpUF:
 		var sb strings.Builder
 		for i := range t.Args {
@@ -1178,4 +1193,40 @@ func collectLeaves(t *Term, seen map[*Term]bool, f func(*Term)) {
 		collectLeaves(a, seen, f)
 	}
 	f(t)
+}
+
+// upperBound returns a syntactic upper bound (unsigned) of a bit-vector term, if one is apparent.
+func upperBound(t *Term) (uint64, bool) {
+	switch t.Op {
+	case OpConst:
+		return t.Val, true
+	case OpZExt:
+		if b, ok := upperBound(t.Args[0]); ok {
+			return b, true
+		}
+		return mask(t.Args[0].W), true
+	case OpIte:
+		a, ok1 := upperBound(t.Args[1])
+		b, ok2 := upperBound(t.Args[2])
+		if ok1 && ok2 {
+			return max(a, b), true
+		}
+	case OpAdd:
+		a, ok1 := upperBound(t.Args[0])
+		b, ok2 := upperBound(t.Args[1])
+		if ok1 && ok2 && a+b >= a && a+b <= mask(t.W) {
+			return a + b, true
+		}
+	case OpExtract:
+		return mask(t.W), t.W < 32
+	case OpAnd:
+		if b, ok := upperBound(t.Args[1]); ok {
+			return b, true
+		}
+		return upperBound(t.Args[0])
+	}
+	if t.W < 16 && t.W > 0 {
+		return mask(t.W), true
+	}
+	return 0, false
 }
